@@ -69,7 +69,7 @@ def handleSchema (j : Json) : Json :=
     (if anyRef then ["rec.ref-or-items"] else []) ++
     (if r = .ok false then ["rec.reject"] else [])
   jobj [("model", jobj [("res", model)]), ("spec", jobj [("panic", Json.bool false)]),
-        ("excl", jstrs (if r = .diverge then ((if cyc then ["UnguardedRecursion"] else []) ++ (if ecyc then ["EmptyRecursion"] else [])) else [])),
+        ("excl", jstrs (if r = .diverge && cyc then ["UnguardedRecursion"] else [])),
         ("branches", jstrs branches)]
 
 /-! ### op "traffic": document features read from the document JSON itself -/
@@ -179,13 +179,14 @@ def handleTraffic (j : Json) : Json :=
   let servers := serverURLs doc
   let method := chars (getStr req "method")
   let route := legacyFindRoute servers paths method (chars (getStr req "rawURL")) (chars (getStr req "path"))
-  let exLit := router == "legacy" && (match route with | .panic _ => true | _ => false)
-  let exPort := router == "gorilla" && gorillaNewRouterPanics (allServerURLs doc)
-  let exParam := (objects doc).any isContentParamNoSchema
+  -- regression classes of repaired findings: reported as branches, no longer exclusions
+  let literal := router == "legacy" && !templateMatches paths (keyOf method (if servers.isEmpty then chars (getStr req "path") else [])) &&
+                 (paths.find? (fun p => p.tpl = chars (getStr req "path"))).any (fun p => p.methods.contains method) && servers.isEmpty
+  let portBad := router == "gorilla" && (allServerURLs doc).any (fun u => gorillaPortBranch u = .routerError)
+  let paramNoSchema := (objects doc).any isContentParamNoSchema
   let exRec := docUnguardedCycle doc
-  let exEmp := docEmptinessCycle doc
-  let excl := (if exLit then ["LiteralTemplateMiss"] else []) ++ (if exPort then ["PortUnclosed"] else []) ++
-              (if exParam then ["ContentParamNoSchema"] else []) ++ (if exRec then ["UnguardedRecursion"] else []) ++ (if exEmp then ["EmptyRecursion"] else [])
+  let emp := docEmptinessCycle doc
+  let excl := (if exRec then ["UnguardedRecursion"] else [])
   let branches :=
     featureBranches doc ++
     (if router == "legacy" then ["route.legacy." ++ routeStr route] else ["route.gorilla"]) ++
@@ -193,10 +194,10 @@ def handleTraffic (j : Json) : Json :=
     (if servers.any (·.contains '{') then ["doc.server-variable"] else []) ++
     (if paths.any (·.methods.isEmpty) then ["doc.path-without-operations"] else []) ++
     (if !knownMethods.contains method then ["req.unknown-method"] else []) ++
+    (if literal then ["fixed.literal-template"] else []) ++ (if portBad then ["fixed.port-unclosed"] else []) ++
+    (if paramNoSchema then ["fixed.content-param-no-schema"] else []) ++ (if emp then ["fixed.emptiness-cycle"] else []) ++
     excl.map (fun e => "excl." ++ e)
-  let stages := (if exLit then ["findroute", "middleware"] else []) ++ (if exPort then ["newrouter"] else []) ++
-                (if exParam then ["request", "middleware"] else [])
-  jobj [("model", jobj [("panic", Json.bool (!excl.isEmpty)), ("stages", jstrs stages), ("crash", Json.bool (exRec || exEmp)),
+  jobj [("model", jobj [("panic", Json.bool (!excl.isEmpty)), ("crash", Json.bool exRec),
                         ("route", if router == "legacy" then Json.str (routeStr route) else Json.null)]),
         ("spec", jobj [("panic", Json.bool false)]),
         ("excl", jstrs excl), ("branches", jstrs branches)]
